@@ -36,6 +36,8 @@ extern crate thiserror;
 mod deserialization;
 mod errors;
 mod serialization;
+#[cfg(feature = "verif-hooks")]
+pub mod verif_hooks;
 
 pub use deserialization::deserialize;
 pub use errors::{Amf0DeserializationError, Amf0SerializationError};
